@@ -102,10 +102,11 @@ def indentMax : Int := 65536
 
 def indentImpl (nfc : String → String) (args : List Value) : Res Value := do
   let spaces ← fromCtyInt (← arg args 0)
-  let data ← asString (← arg args 1)
-  if spaces < 0 then .panic "strings: negative Repeat count"      -- raised inside strings.Repeat
-  else if spaces > indentMax then .unmodelled
-  else pure (stringVal nfc (String.ofList (indentChars spaces.toNat data.toList)))
+  if spaces < 0 then .err "the number of spaces must not be negative"
+  else
+    let data ← asString (← arg args 1)
+    if spaces > indentMax then .unmodelled
+    else pure (stringVal nfc (String.ofList (indentChars spaces.toNat data.toList)))
 
 end Stdlib
 end CtyModel
